@@ -118,6 +118,24 @@ def profile(prop, g):
     return kw, cfg
 
 
+def strip_stale(m):
+    """the module without its never-implemented declarations (and the cpp_virtual_member commands that go with them)"""
+    import copy
+    m = copy.deepcopy(m)
+    def rec(items):
+        out = []
+        for i, it in enumerate(items):
+            if it['k'] == 'cmd' and GM.cname(it['call']) in GM.DECLS:
+                nxt = items[i + 1] if i + 1 < len(items) else None
+                if not (nxt is not None and nxt['k'] == 'block' and GM.cname(nxt['open']) in ('function', 'macro')): continue
+            if it['k'] == 'cmd' and GM.cname(it['call']) == 'cpp_virtual_member': continue
+            if 'body' in it: it['body'] = rec(it['body'])
+            out.append(it)
+        return out
+    m['items'] = rec(m['items'])
+    return m
+
+
 def canon_err(r):
     """lexical and syntactic errors form one class: ANTLR's parser pulls tokens lazily, so which of the two is reported
     first depends on look-ahead, while the model lexes the whole file before parsing"""
@@ -174,6 +192,29 @@ def compare_case(prop, m, cfg, src, model, real):
             if pr not in pes:
                 vio = dict(kind='output differs from what the module prescribes (under either reading of a documented implementing definition)',
                            expected=pes[0], expected_other_reading=pes[1], real=pr)
+    elif prop == 'C09' and not wf and not has_crlf_doc(m) and 'err' not in real and GM.well_formed(strip_stale(m), documented_impl=True)[0] \
+            and all(cfg.get('incl', {}).get(f, True) for f in ('cpp_class', 'cpp_member', 'cpp_constructor')):
+        # the only irregularity is a declaration that is never implemented (known finding K8: the NEXT definition anywhere later is taken for
+        # its implementation).  What a declaration that IS directly followed by its definition shows does not depend on that: its
+        # parameter names are those of its own definition, whatever was left pending before it
+        tags.append('adjacent-pairs-only')
+        methods = [x for e in real['entries'] if e.get('t') == 'class' for x in e['ctors'] + e['members']]
+        rx = (cfg.get('regex') or {}).get('member', '')
+        def pairs(items, in_class):
+            for it in items:
+                if it['k'] == 'decl' and in_class and GM.cname(it['decl']) in ('cpp_member', 'cpp_constructor'):
+                    d_ = GM.singles(it['decl']); i_ = GM.singles(it['impl'])
+                    if len(d_) >= 2 and len(i_) >= 1 and GM.cname(it['impl']) in ('function', 'macro'):
+                        yield dict(name=d_[0], types=d_[2:], params=[re.sub(rx, '', p_) for p_ in i_[2:]], macro=GM.cname(it['impl']) == 'macro', ctor=GM.cname(it['decl']) == 'cpp_constructor')
+                if it['k'] == 'block':
+                    n_ = GM.cname(it['open'])
+                    yield from pairs(it['body'], (n_ == 'cpp_class' and len(GM.singles(it['open'])) >= 1) or (in_class and n_ in ('if', 'foreach', 'while')))
+                elif it['k'] == 'decl': yield from pairs(it['body'], False)
+        for want in pairs(m['items'], False):
+            if not any(all(x.get(k_) == v_ for k_, v_ in want.items()) for x in methods):
+                vio = dict(kind='a member declaration directly followed by its definition does not show that definition\'s parameters', expected=want,
+                           real=[x for x in methods if x['name'] == want['name']][:4])
+                break
     elif prop == 'C01' and not wf and not has_crlf_doc(m) and 'err' not in real:
         # no structural prescription for this module (malformed stream, declarations that are never implemented, ...), but the
         # property still says where the text of a doccomment on a function/macro definition goes: into the page, line for line
